@@ -68,10 +68,32 @@ theorem intStrip_tight {x : Str} (h : Tight x) : intStrip x = x := by
       simp [List.dropWhile_cons, hp a (h.2 a this)]
   rw [this, List.reverse_reverse]
 
+/-- an ASCII character is left alone by the digit transformation (an ASCII digit maps to itself) -/
+theorem decimalVal_ascii : ∀ n, n < 128 →
+    (match decimalVal? (Char.ofNat n) with | some d => Char.ofNat (48 + d) | none => Char.ofNat n) = Char.ofNat n := by
+  decide +kernel
+
+theorem toAsciiDecimal_ascii (s : Str) (h : ∀ c ∈ s, c.toNat < 128) : toAsciiDecimal s = s := by
+  unfold toAsciiDecimal
+  conv => rhs; rw [← List.map_id s]
+  apply List.map_congr_left
+  intro c hc
+  have := decimalVal_ascii c.toNat (h c hc)
+  rw [Char.ofNat_toNat] at this
+  exact this
+
+theorem isDigit_lt128 {c : Char} (h : c.isDigit = true) : c.toNat < 128 := by
+  simp only [Char.isDigit, Bool.and_eq_true, decide_eq_true_eq] at h
+  have h2 : c.toNat ≤ 57 := UInt32.le_iff_toNat_le.mp h.2
+  omega
+
+theorem toAsciiDecimal_digits {ds : Str} (h : ds.all Char.isDigit = true) : toAsciiDecimal ds = ds :=
+  toAsciiDecimal_ascii ds (fun c hc => isDigit_lt128 (List.all_eq_true.1 h c hc))
+
 theorem pyInt_natText (n : Nat) : pyInt (natText n) = .ok (n : Int) := by
   have h := natText_all_digit n
   unfold pyInt
-  rw [intStrip_tight (digits_tight h), signSplit2_digits h]
+  rw [toAsciiDecimal_digits h, intStrip_tight (digits_tight h), signSplit2_digits h]
   simp [intBody_digits _ h (natText_ne_nil n), digitsVal_natText]
 
 theorem pyInt_intText (i : Int) : pyInt (intText i) = .ok i := by
@@ -89,7 +111,11 @@ theorem pyInt_intText (i : Int) : pyInt (intText i) = .ok i := by
         exact (digits_tight h).2 c hc
     simp only [intText]
     unfold pyInt
-    rw [intStrip_tight ht]
+    rw [toAsciiDecimal_ascii _ (by
+      intro c hc
+      rcases List.mem_cons.1 hc with e | e
+      · subst e; decide
+      · exact isDigit_lt128 (List.all_eq_true.1 h c e)), intStrip_tight ht]
     simp [signSplit2, intBody_digits _ h (natText_ne_nil _), digitsVal_natText]
     rfl
 
